@@ -29,6 +29,8 @@ def run_property(prop, tier='quick', root='/repo', overlay=None, quiet=False, wr
         ctx.index = index
         mod = importlib.import_module('sa.rules.%s' % prop)
         mod.run(ctx)
+        if tier == 'thorough' and hasattr(mod, 'run_thorough'):
+            mod.run_thorough(ctx)
         ctx.check_floors()
     except AnalysisError as exc:
         err = exc
